@@ -39,6 +39,13 @@ const ggProp = "C10"
 func TestVerifGGUF(t *testing.T) {
 	slog.SetDefault(slog.New(slog.DiscardHandler))
 	defer ggStopChild()
+	if ggDebug {
+		defer func() {
+			for k, n := range ggDbgN {
+				fmt.Fprintf(os.Stderr, "gguf-debug: %-12s n=%d total=%v avg=%v\n", k, n, ggDbgT[k], ggDbgT[k]/time.Duration(n))
+			}
+		}()
+	}
 	verifsim.WorkerMain(t, verifsim.Harness{
 		Name:       "gguf",
 		RunOne:     runGGUF,
@@ -53,7 +60,7 @@ func TestVerifGGUF(t *testing.T) {
 		Assumptions: []string{
 			"in-family restriction: only images that arise from faults on a valid stored/transferred file are explored, not arbitrary byte strings",
 			"runtime/metrics /gc/heap/allocs:bytes and runtime.MemStats.TotalAlloc count every heap allocation of the decoder",
-			"a decode that dies with the Go runtime's fatal out-of-memory error under RLIMIT_AS = start-up address space + 1 GiB allocated out of proportion",
+			"a decode that dies with the Go runtime's fatal out-of-memory error under RLIMIT_AS = start-up address space + 256 MiB allocated out of proportion",
 			"the simulated reader follows the io.Reader contract (never 0, nil for a non-empty buffer)",
 		},
 	})
@@ -70,8 +77,13 @@ type ggChild struct {
 }
 
 var (
+	ggDebug = os.Getenv("VERIF_GGUF_DEBUG") != ""
+	ggDbgN  = map[string]int{}
+	ggDbgT  = map[string]time.Duration{}
+)
+
+var (
 	ggTheChild  *ggChild
-	ggSpawns    int
 	ggInProcess = os.Getenv("VERIF_GGUF_INPROC") != "" // debugging aid: no child, no protection
 )
 
@@ -107,7 +119,31 @@ func ggStartChild() (*ggChild, error) {
 	reqR.Close()
 	respW.Close()
 	c.br = bufio.NewReaderSize(respR, 1<<16)
-	ggSpawns++
+	return c, nil
+}
+
+// A small pool of pre-started decode servers hides the start-up latency when a
+// decode kills its server (frequent while the tree has allocation defects).
+var ggSpares chan *ggChild
+
+func ggTakeChild() (*ggChild, error) {
+	if ggSpares == nil {
+		ggSpares = make(chan *ggChild, 2)
+		go func() {
+			for {
+				c, err := ggStartChild()
+				if err != nil {
+					close(ggSpares)
+					return
+				}
+				ggSpares <- c
+			}
+		}()
+	}
+	c, ok := <-ggSpares
+	if !ok {
+		return ggStartChild()
+	}
 	return c, nil
 }
 
@@ -124,6 +160,7 @@ func ggStopChild() {
 		ggTheChild.kill()
 		ggTheChild = nil
 	}
+	// the spares exit by themselves: their request pipe closes with this process
 }
 
 // ggDeath describes a decode that killed (or hung) the decode server.
@@ -133,32 +170,104 @@ type ggDeath struct {
 	Detail string
 }
 
-const ggChildTimeout = 60 * time.Second
+// A decode is declared hung when the decode server has burnt ggHangCPU of CPU
+// time on it (CPU time, not wall time: the verdict must not depend on the load
+// of the machine; a healthy decode takes microseconds), or - as a last resort
+// against a blocked child - after ggHangWall.
+const (
+	ggHangCPU  = 30 * time.Second
+	ggHangWall = 15 * time.Minute
+)
+
+// ggCPU returns the CPU time (user+system) consumed so far by process pid.
+func ggCPU(pid int) time.Duration {
+	b, err := os.ReadFile(fmt.Sprintf("/proc/%d/stat", pid))
+	if err != nil {
+		return 0
+	}
+	s := string(b)
+	if i := strings.LastIndexByte(s, ')'); i >= 0 {
+		s = s[i+1:]
+	}
+	f := strings.Fields(s)
+	if len(f) < 13 {
+		return 0
+	}
+	var ut, stt int64
+	fmt.Sscan(f[11], &ut)
+	fmt.Sscan(f[12], &stt)
+	return time.Duration(ut+stt) * (time.Second / 100) // USER_HZ is 100 on Linux
+}
+
+// readFull reads the reply, polling the child's CPU consumption while it waits.
+func (c *ggChild) readFull(buf []byte, cpu0 *time.Duration, start time.Time) (hang string, err error) {
+	got := 0
+	for got < len(buf) {
+		c.r.SetReadDeadline(time.Now().Add(2 * time.Second))
+		n, err := c.br.Read(buf[got:])
+		got += n
+		if err == nil {
+			continue
+		}
+		if !os.IsTimeout(err) {
+			return "", err
+		}
+		if *cpu0 < 0 {
+			// first time-out of this request: start counting CPU time here
+			*cpu0 = ggCPU(c.cmd.Process.Pid)
+		}
+		if used := ggCPU(c.cmd.Process.Pid) - *cpu0; used > ggHangCPU {
+			return fmt.Sprintf("the decode consumed more than %v of CPU time without returning", ggHangCPU), err
+		}
+		if time.Since(start) > ggHangWall {
+			return fmt.Sprintf("no answer from the decode within %v", ggHangWall), err
+		}
+	}
+	return "", nil
+}
 
 // ggCall runs one decode in the child. death != nil when the child did not answer.
 func ggCall(req *ggReq) (resp *ggResp, death *ggDeath, err error) {
+	if ggDebug {
+		t0 := time.Now()
+		defer func() {
+			k := "ok"
+			if death != nil {
+				k = "death:" + death.Kind
+			} else if req.Flags&ggFlagPrecise != 0 {
+				k = "precise"
+			}
+			ggDbgN[k]++
+			ggDbgT[k] += time.Since(t0)
+			if dt := time.Since(t0); dt > 50*time.Millisecond && resp != nil {
+				fmt.Fprintf(os.Stderr, "gguf-debug: slow %v %s mode=%d size=%d alloc=%d ok=%v err=%q panic=%q fn=%s\n", dt, k, req.Mode, len(req.Img), resp.Alloc, resp.OK, resp.Err, resp.Panic, resp.AllocFn)
+			}
+		}()
+	}
 	if ggInProcess {
 		r := ggDecodeOnce(req)
 		return &r, nil, nil
 	}
 	for attempt := 0; ; attempt++ {
 		if ggTheChild == nil {
-			ggTheChild, err = ggStartChild()
+			ggTheChild, err = ggTakeChild()
 			if err != nil {
 				return nil, nil, fmt.Errorf("start decode server: %w", err)
 			}
 		}
 		c := ggTheChild
-		c.r.SetReadDeadline(time.Now().Add(ggChildTimeout))
+		start := time.Now()
+		cpu0 := time.Duration(-1)
 		_, werr := c.w.Write(req.encode())
 		var hdr [4]byte
 		var rerr error
+		hang := ""
 		if werr == nil {
-			_, rerr = io.ReadFull(c.br, hdr[:])
+			hang, rerr = c.readFull(hdr[:], &cpu0, start)
 		}
 		if werr == nil && rerr == nil {
 			buf := make([]byte, binary.LittleEndian.Uint32(hdr[:]))
-			if _, rerr = io.ReadFull(c.br, buf); rerr == nil {
+			if hang, rerr = c.readFull(buf, &cpu0, start); rerr == nil {
 				var r ggResp
 				if err := json.Unmarshal(buf, &r); err != nil {
 					return nil, nil, fmt.Errorf("decode server reply: %w", err)
@@ -166,13 +275,17 @@ func ggCall(req *ggReq) (resp *ggResp, death *ggDeath, err error) {
 				return &r, nil, nil
 			}
 		}
-		timeout := rerr != nil && os.IsTimeout(rerr)
 		stderr := c.kill()
 		ggTheChild = nil
 		switch {
-		case timeout:
-			return nil, &ggDeath{Kind: "hang", Detail: fmt.Sprintf("no answer from the decode within %v", ggChildTimeout)}, nil
+		case hang != "":
+			return nil, &ggDeath{Kind: "hang", Detail: hang}, nil
 		case strings.Contains(stderr, "out of memory") || strings.Contains(stderr, "cannot allocate memory"):
+			if blk := ggFatalBlock(stderr); blk > 0 && blk <= ggAllocBound(len(req.Img)) && attempt == 0 {
+				// a small allocation failed because earlier (garbage) allocations of this server
+				// had used up the headroom: not attributable, ask a fresh server once
+				continue
+			}
 			return nil, &ggDeath{Kind: "oom", Fn: ggFatalFunc(stderr), Detail: ggFatalSummary(stderr)}, nil
 		case strings.Contains(stderr, "fatal error:") || strings.Contains(stderr, "panic:"):
 			return nil, &ggDeath{Kind: "fatal", Fn: ggFatalFunc(stderr), Detail: ggFatalSummary(stderr)}, nil
@@ -201,6 +314,18 @@ func ggFatalFunc(stderr string) string {
 		}
 	}
 	return "?"
+}
+
+// ggFatalBlock parses "runtime: out of memory: cannot allocate N-byte block".
+func ggFatalBlock(stderr string) uint64 {
+	const key = "cannot allocate "
+	i := strings.Index(stderr, key)
+	if i < 0 {
+		return 0
+	}
+	var n uint64
+	fmt.Sscanf(stderr[i+len(key):], "%d-byte block", &n)
+	return n
 }
 
 func ggFatalSummary(stderr string) string {
@@ -322,7 +447,19 @@ func (st *ggState) where(off int) string {
 // ggOverwriteValues lists the boundary values for a field (DESIGN: 0, 1, 2^31,
 // 2^32-1, 2^63, 2^64-1, original+-1, huge-but-plausible; type tags: every tag).
 func ggOverwriteValues(f *ggField) []uint64 {
-	cand := []uint64{0, 1, 2, 1 << 31, 1<<32 - 1, 1 << 63, 1<<64 - 1, f.Orig - 1, f.Orig + 1, 3 << 22, 1025, 1<<31 - 1, 1<<63 - 1}
+	cand := []uint64{0, 1, 2, 1 << 31, 1<<32 - 1, 1 << 63, 1<<64 - 1, f.Orig - 1, f.Orig + 1, 1025, 1<<31 - 1, 1<<63 - 1}
+	// huge-but-plausible: about 12 MiB of whatever the field counts (well above the
+	// allocation bound of a few-KiB file, far below the address-space limit)
+	switch f.Kind {
+	case "arrcount":
+		cand = append(cand, 3<<18) // x 16-byte interface values
+	case "ndims", "dim":
+		cand = append(cand, 3<<19) // x 8-byte dimensions
+	case "keylen", "strlen", "elemstrlen", "tnamelen":
+		cand = append(cand, 3<<22) // bytes
+	default:
+		cand = append(cand, 3<<18, 3<<22)
+	}
 	switch f.Kind {
 	case "valtype", "arrtype":
 		for t := uint64(0); t <= 13; t++ {
@@ -335,7 +472,7 @@ func ggOverwriteValues(f *ggField) []uint64 {
 	case "alignval":
 		cand = append(cand, 3, 7, 1<<16)
 	case "ndims":
-		cand = append(cand, 4, 5, 1<<16, 1<<19, 1<<27)
+		cand = append(cand, 4, 5, 1<<16)
 	case "magic":
 		cand = []uint64{0, uint64(FILE_MAGIC_GGUF_BE), uint64(FILE_MAGIC_GGML), uint64(FILE_MAGIC_GGLA), f.Orig + 1}
 	}
@@ -532,54 +669,46 @@ func (st *ggState) check(run *ggRun, img []byte, mode int32, p *ggPoint, what st
 		return &verifsim.Violation{Property: ggProp, Class: class, Signature: sig, Msg: full}
 	}
 	info["decodes"]++
+	// Whether an oversized allocation kills the decode server or is merely measured depends on
+	// the server's heap history, so nothing below that enters the run's hash, Steps or Info may
+	// depend on it: a violation contributes its signature only; diagnostics go to Probes.
+	diag := run.res.Probes
 	resp, death, err := ggCall(req)
 	if err != nil {
 		run.res.HarnessErr = err.Error()
 		return nil, nil
 	}
-	if death != nil {
-		info["child_deaths"]++
-		run.logf("  mode %d: decode server died: %s %s (%s)", mode, death.Kind, death.Fn, death.Detail)
-		switch death.Kind {
-		case "oom":
-			return viol("alloc", "alloc:"+death.Fn, fmt.Sprintf("decoding a %d-byte image exhausted the address-space limit (start-up size + 1 GiB) in %s: %s [altered field kind: %s]", len(img), death.Fn, death.Detail, fk)), nil
-		case "hang":
-			return viol("hang", "hang:"+fk, fmt.Sprintf("decoding a %d-byte image did not return: %s", len(img), death.Detail)), nil
-		default:
-			return viol("fatal", "fatal:"+death.Fn, fmt.Sprintf("decoding a %d-byte image crashed the process in %s: %s [altered field kind: %s]", len(img), death.Fn, death.Detail, fk)), nil
-		}
-	}
-	run.res.Steps += resp.Reads + resp.Seeks
 	bound := ggAllocBound(len(img))
-	if resp.Alloc+ggAllocBand > bound && resp.Panic == "" && resp.Runaway == "" {
+	if death == nil && resp.Alloc+ggAllocBand > bound && resp.Panic == "" && resp.Runaway == "" {
 		// near or above the bound: measure again exactly (GC-independent) and attribute
 		req.Flags |= ggFlagPrecise
-		info["precise_remeasure"]++
-		r2, death2, err := ggCall(req)
+		diag["diag_precise_remeasure"]++
+		var r2 *ggResp
+		r2, death, err = ggCall(req)
 		if err != nil {
 			run.res.HarnessErr = err.Error()
 			return nil, nil
 		}
-		if death2 == nil {
+		if death == nil {
 			resp = r2
 		}
 	}
-	run.hash = ggHash(run.hash, mode, resp.OK, resp.Err, resp.Panic, resp.Runaway, resp.Stage)
-	if keep := st.keepLog; keep {
-		run.logf("  mode %d: ok=%v err=%q panic=%q stage=%s reads=%d seeks=%d delivered=%d alloc=%d", mode, resp.OK, resp.Err, resp.Panic, resp.Stage, resp.Reads, resp.Seeks, resp.Delivered, resp.Alloc)
-	}
-	if resp.ErrFired {
-		info["read_err_fired"]++
-	}
-	if resp.SeekFired {
-		info["seek_err_fired"]++
-	}
-	if resp.Short > 0 {
-		info["short_reads_served"] += resp.Short
-	}
+	var v *verifsim.Violation
 	switch {
+	case death != nil:
+		diag["diag_child_deaths"]++
+		run.logf("  mode %d: decode server died: %s %s (%s)", mode, death.Kind, death.Fn, death.Detail)
+		switch death.Kind {
+		case "oom":
+			v = viol("alloc", "alloc:"+death.Fn, fmt.Sprintf("decoding a %d-byte image exhausted the address-space limit (start-up size + 256 MiB) in %s: %s [altered field kind: %s]", len(img), death.Fn, death.Detail, fk))
+		case "hang":
+			v = viol("hang", "hang:"+fk, fmt.Sprintf("decoding a %d-byte image did not return: %s", len(img), death.Detail))
+		default:
+			v = viol("fatal", "fatal:"+death.Fn, fmt.Sprintf("decoding a %d-byte image crashed the process in %s: %s [altered field kind: %s]", len(img), death.Fn, death.Detail, fk))
+		}
+		resp = nil
 	case resp.Runaway != "":
-		return viol("runaway-read", "runaway-read:"+fk, "the decoder does not stop reading: "+resp.Runaway), resp
+		v = viol("runaway-read", "runaway-read:"+fk, "the decoder does not stop reading: "+resp.Runaway)
 	case resp.Panic != "":
 		cl := ggPanicClass(resp.Panic)
 		stage := "ggml.Decode"
@@ -588,16 +717,35 @@ func (st *ggState) check(run *ggRun, img []byte, mode int32, p *ggPoint, what st
 		}
 		if cl == "makeslice" {
 			// a length the runtime refuses outright: same root cause as an oversized allocation
-			return viol("alloc", "alloc:"+resp.PanicFn, fmt.Sprintf("%s panicked in %s: %s [altered field kind: %s]", stage, resp.PanicFn, resp.Panic, fk)), resp
+			v = viol("alloc", "alloc:"+resp.PanicFn, fmt.Sprintf("%s panicked in %s: %s [altered field kind: %s]", stage, resp.PanicFn, resp.Panic, fk))
+		} else {
+			v = viol("panic", "panic:"+cl+"@"+resp.PanicFn, fmt.Sprintf("%s panicked in %s: %s [altered field kind: %s]", stage, resp.PanicFn, resp.Panic, fk))
 		}
-		return viol("panic", "panic:"+cl+"@"+resp.PanicFn, fmt.Sprintf("%s panicked in %s: %s [altered field kind: %s]", stage, resp.PanicFn, resp.Panic, fk)), resp
 	case resp.Alloc > bound:
 		fn := resp.AllocFn
 		if fn == "" {
 			fn = "?"
 		}
-		return viol("alloc", "alloc:"+fn, fmt.Sprintf("decoding a %d-byte image allocated %d bytes (bound 64 x size + 4 MiB = %d); largest allocation site: %s (%d bytes) [altered field kind: %s]; decode result: ok=%v err=%q",
-			len(img), resp.Alloc, bound, fn, resp.AllocTop, fk, resp.OK, resp.Err)), resp
+		v = viol("alloc", "alloc:"+fn, fmt.Sprintf("decoding a %d-byte image allocated %d bytes (bound 64 x size + 4 MiB = %d); largest allocation site: %s (%d bytes) [altered field kind: %s]; decode result: ok=%v err=%q",
+			len(img), resp.Alloc, bound, fn, resp.AllocTop, fk, resp.OK, resp.Err))
+	}
+	if resp != nil && st.keepLog {
+		run.logf("  mode %d: ok=%v err=%q panic=%q stage=%s reads=%d seeks=%d delivered=%d alloc=%d", mode, resp.OK, resp.Err, resp.Panic, resp.Stage, resp.Reads, resp.Seeks, resp.Delivered, resp.Alloc)
+	}
+	if v != nil {
+		run.hash = ggHash(run.hash, mode, v.Signature)
+		return v, resp
+	}
+	run.hash = ggHash(run.hash, mode, resp.OK, resp.Err, resp.Stage)
+	run.res.Steps += resp.Reads + resp.Seeks
+	if resp.ErrFired {
+		info["read_err_fired"]++
+	}
+	if resp.SeekFired {
+		info["seek_err_fired"]++
+	}
+	if resp.Short > 0 {
+		info["short_reads_served"] += resp.Short
 	}
 	if resp.OK {
 		info["decode_ok"]++
@@ -723,11 +871,12 @@ func runGGUF(t *testing.T, tape *verifsim.Tape, prop, tier string, keepLog bool)
 		if !stop {
 			for si := range st.scheds {
 				p := &ggPoint{kind: "short", sched: si}
-				_, resp := st.check(run, c.img, st.mode, p, p.describe(st))
+				v, resp := st.check(run, c.img, st.mode, p, p.describe(st))
 				if run.res.HarnessErr != "" {
 					return run.res, 0
 				}
-				if resp != nil {
+				// (a violation here is reported by the "short" point of the same schedule)
+				if resp != nil && v == nil {
 					reads[si+1] = resp.Reads
 				}
 			}
